@@ -456,8 +456,13 @@ class C08Rig:
                     else:
                         c._sub_all = bool(cl["sub_all"])
                         c._subscribed_types = {cd.ALL_MESSAGE_TYPES} if cl["sub_all"] else set(cl["sub"])
-                    if (c._sub_all, set(c.subscribed_types) - {cd.ALL_MESSAGE_TYPES}) != \
-                            (bool(cl["sub_all"]), set() if cl["sub_all"] else set(cl["sub"])):
+                    # what the client REPORTS must be the state asked for; the private fast-path flag is only
+                    # checked when it was set directly - when the state was reached through the API a stale
+                    # flag is the implementation's business and shows up in what read_message returns
+                    want_pub = {cd.ALL_MESSAGE_TYPES} if cl["sub_all"] else set(cl["sub"])
+                    pub_ok = set(c.subscribed_types) == want_pub
+                    flag_ok = c._sub_all == bool(cl["sub_all"])
+                    if not pub_ok or (not flag_ok and not cl.get("via")):
                         raise RuntimeError(f"could not establish subscription state {cl}: "
                                            f"{c._sub_all} {c.subscribed_types}")
                     with watchdog(3.0):
